@@ -160,10 +160,16 @@ class MoistColumn:
         return self.par["ps"] * np.exp(-np.asarray(s_nodes, dtype=float))
 
 
+def layer_logs(p):
+    """ln(p_i / p_{i+1}) in longdouble; log1p of the exactly representable difference keeps
+    full relative accuracy for neighbouring levels."""
+    p = np.asarray(p, dtype=LD)
+    return np.log1p((p[:-1] - p[1:]) / p[1:])
+
+
 def tanh_layer_sum(p):
     """(sum ln(p_i/p_{i+1}), sum ln^3 / 12) in longdouble for a decreasing pressure grid."""
-    p = np.asarray(p, dtype=LD)
-    L = np.log(p[:-1] / p[1:])
+    L = layer_logs(p)
     return np.concatenate([[LD(0)], np.cumsum(L)]), np.concatenate([[LD(0)], np.cumsum(L ** 3 / 12)])
 
 
